@@ -186,7 +186,16 @@ Shuffle(seed, ds) ==
   LET Ins(acc, i) == InsertAt(acc, (H(seed, K(39, i, 1)) % (Len(acc) + 1)) + 1, ds[i])
   IN FoldLeft(Ins, <<>>, [i \in DOMAIN ds |-> i])
 
+\* a document without any table: enums, empty groups, sticky notes, project
+TablelessDoc(seed) ==
+  [e \in 1..Num(seed, 12, 0, 2) |-> RandEnum(seed, e)]
+  \o [g \in 1..Num(seed, 13, 0, 2) |-> [d |-> "group", name |-> GroupNames[g], items |-> <<>>,
+                                        note |-> Maybe(seed, K(30 + g, 0, 4), 30, Texts), color |-> Pick(seed, K(30 + g, 0, 6), Colors), comment |-> ""]]
+  \o [n \in 1..Num(seed, 14, 0, 2) |-> RandSticky(seed, n)]
+  \o [p \in 1..Num(seed, 15, 0, 1) |-> RandProject(seed)]
+
 RandDocP(seed, withProps) ==
+  IF Coin(seed, 11, 8) THEN TablelessDoc(seed) ELSE
   LET nr == Num(seed, 6, 0, 3)
       ng == Num(seed, 7, 0, 2)
       nn == Num(seed, 8, 0, 2)
